@@ -37,6 +37,11 @@ var isReservedName = map[string]bool{
 	"switch":     true,
 	"try":        true,
 	"while":      true,
+	// methods of the generated record classes
+	"eq":      true,
+	"isequal": true,
+	"ne":      true,
+	"zeros":   true,
 }
 
 var TypeSyntaxWriter dsl.TypeSyntaxWriter[string] = func(self dsl.TypeSyntaxWriter[string], t dsl.Node, contextNamespace string) string {
